@@ -376,10 +376,10 @@ impl TransactionCoordinator {
         let xmin = active.iter().min().copied().unwrap_or(txid);
 
         // xmax is the last committed transaction from PageZero
-        let xmax = {
-            let last = self.get_last_committed();
-            if last == 0 { None } else { Some(last) }
-        };
+        // Transaction ids start at 0, so "last committed == 0" does not mean that no bound is known:
+        // leaving xmax unset would make every transaction that starts (and commits) after this
+        // snapshot count as committed before it.
+        let xmax = Some(self.get_last_committed());
 
         Ok(Snapshot::new(txid, xmin, xmax, active, aborted))
     }
